@@ -171,6 +171,12 @@ func c06Duplication(c *Ctx, f *Family, r *rand.Rand, modular bool) {
 		c.Violate("shared-state", detail(), "the copy's node look-up does not answer with the copy's own nodes: %s", why)
 		return
 	}
+	if traitRefsOwn(src) == "" {
+		if why := traitRefsOwn(dup); why != "" {
+			c.Violate("trait-detached", detail(), "in the original every trait reference is one of its own trait objects, in the copy %s", why)
+			return
+		}
+	}
 	if len(before.Modules) > 0 {
 		c.Count("duplications.modular", 1)
 	}
@@ -322,6 +328,27 @@ func lookupOwn(g *genetics.Genome) string {
 	}
 	if g.VerifNodeMapSize() != len(g.Nodes) {
 		return fmt.Sprintf("the look-up knows %d nodes, the genome has %d", g.VerifNodeMapSize(), len(g.Nodes))
+	}
+	return ""
+}
+
+// traitRefsOwn reports the first node, control node or gene of the genome whose trait reference is not one of the trait
+// objects in the genome's own list (a snapshot of a trait instead of the trait)
+func traitRefsOwn(g *genetics.Genome) string {
+	for _, n := range g.Nodes {
+		if n != nil && n.Trait != nil && !ownTrait(g, n.Trait) {
+			return fmt.Sprintf("node %d holds a trait object (id %d) that is not in the genome's trait list", n.Id, n.Trait.Id)
+		}
+	}
+	for _, gn := range g.Genes {
+		if gn != nil && gn.Link != nil && gn.Link.Trait != nil && !ownTrait(g, gn.Link.Trait) {
+			return fmt.Sprintf("gene %d holds a trait object (id %d) that is not in the genome's trait list", gn.InnovationNum, gn.Link.Trait.Id)
+		}
+	}
+	for _, cg := range g.ControlGenes {
+		if cg != nil && cg.ControlNode != nil && cg.ControlNode.Trait != nil && !ownTrait(g, cg.ControlNode.Trait) {
+			return fmt.Sprintf("control node %d holds a trait object (id %d) that is not in the genome's trait list", cg.ControlNode.Id, cg.ControlNode.Trait.Id)
+		}
 	}
 	return ""
 }
